@@ -418,6 +418,10 @@ func init() {
 	add(simple("entrycls", "entry-interface", func(r *vh.Rand, u string) string {
 		return S("namespace NI_%s;\ninterface EI { function m(); }\necho interface_exists('NI_%s\\\\EI') ? 'yes' : 'no', \"\\n\";\n", u, u)
 	}))
+	// ------------------------------------------------------------ positions (known finding: none in the compiled program)
+	add(simple("pos", posTag, func(r *vh.Rand, u string) string {
+		return S("$a = [%d];\n\necho \"x\\n\";\nvar_dump($a[null]);\n", n(r, 0, 9))
+	}))
 	add(simple("entrycls", "entry-namespaced-function", func(r *vh.Rand, u string) string {
 		return S("namespace NF_%s;\nfunction nf($x) { return $x + %d; }\necho nf(1), \\NF_%s\\nf(2), \"\\n\";\n", u, n(r, 0, 9), u)
 	}))
@@ -436,6 +440,9 @@ func featureByTag(tag string) *feature {
 func FeatProg(r *vh.Rand, f *feature, name, kind string) *Prog {
 	if scMultis[f.Tag] != nil {
 		return MultiProg(r, f, name, kind)
+	}
+	if opMultis[f.Tag] != nil {
+		return opMultis[f.Tag](r, name, kind, opFull)
 	}
 	e, libs := f.Gen(r, name)
 	p := &Prog{Name: name, Kind: kind, Tags: []string{f.Tag}, Libs: map[string]string{}}
